@@ -73,6 +73,9 @@ type Model struct {
 	Cfg      *ServerCfg
 	Programs map[string]*Program
 	Limit    int
+	// LenientZ: property C10 does not say whether a ReadyForQuery directly
+	// follows the 54000 error of an oversized extended message (C06 does).
+	LenientZ bool
 }
 
 // NewModel builds the model for a case.
@@ -528,6 +531,13 @@ func one(b Branch) []Branch {
 // state st.
 func (m *Model) Step(st *MState, msgs []pgwire.FMsg, i int) []Branch {
 	c := &msgs[i]
+	if (st.Phase == "startup" || st.Phase == "auth") && c.K != "raw" && c.Cut == nil && c.DeclLen == nil && c.DeclaredBody() > int64(m.Limit) {
+		// oversized during startup or authentication: the connection ends
+		// without a session (an ErrorResponse on the way out is acceptable)
+		n := st.clone()
+		n.Phase = "closed"
+		return one(Branch{Exp: []Exp{{T: 'E', Opt: true, Desc: "ErrorResponse(too large during startup)"}}, Next: n, End: true})
+	}
 	switch st.Phase {
 	case "startup":
 		return m.stepStartup(st, c)
@@ -563,7 +573,11 @@ func (m *Model) Step(st *MState, msgs []pgwire.FMsg, i int) []Branch {
 		case strings.IndexByte("PBDEC", t) >= 0:
 			n := st.clone()
 			n.Phase = "discarding"
-			return one(Branch{Exp: []Exp{e}, Next: n})
+			bs := one(Branch{Exp: []Exp{e}, Next: n})
+			if m.LenientZ {
+				bs = append(bs, Branch{Exp: []Exp{e, expReady()}, Next: st, Consumed: 1})
+			}
+			return bs
 		default:
 			// Sync/Flush/Terminate/COPY/unknown types of excessive size: the
 			// properties do not fix the continuation
@@ -577,7 +591,7 @@ func (m *Model) Step(st *MState, msgs []pgwire.FMsg, i int) []Branch {
 	// ---- discarding until Sync ----
 	if st.Phase == "discarding" {
 		switch {
-		case t == 'S' && body == 0:
+		case t == 'S':
 			n := st.clone()
 			n.Phase = "ready"
 			return one(Branch{Exp: []Exp{expReady()}, Next: n})
